@@ -6,14 +6,14 @@ from props import common
 
 ID = "C08"
 LEVEL = "proof"
-LEVEL_TEXT = 'Lean 4 theorems: h*f for f<=0/NaN is zero(); for f>0, h*f equals refilling the same stream with every weight multiplied by f (all trees, all streams); (h*f)*g = h*(f*g), h*1 = h, h*2 = h+h, scaling distributes over +, the scaled result is a good state of the same base and a further fill commutes with the scaling. Tied to /repo by generated states (live and reloaded), factors {1/4,1/2,1,2,3,0,-1,nan, ints}, and continuations that fill, merge, hash and serialise the product.'
+LEVEL_TEXT = 'Lean 4 theorems: h*f for f<=0/NaN is zero(); for f>0, h*f equals refilling the same stream with every weight multiplied by f (all trees, all streams); (h*f)*g = h*(f*g), h*1 = h, h*2 = h+h, scaling distributes over +, the scaled result is a good state of the same base and any further good run of fills commutes with the scaling (scale_fill, scale_fillAll); the scaled stream of a good run is a good run (goodRun_scaled), and scaling every partial result before combining them in any order and grouping equals scaling the whole-dataset aggregate (scale_partition). Tied to /repo by generated states (live and reloaded), factors {1/4,1/2,1,2,3,0,-1,nan, ints}, and continuations that fill, merge, hash and serialise the product.'
 LEVEL_NOTE = "Exact arithmetic (rounding is the declared gap); commutation with JSON round trips is covered by C04's theorems plus correspondence."
 TECHNIQUE = 'Lean 4 proof (scaling laws, refill theorem) + correspondence + oracle with continuations'
 LEAN_MODULE = "Hg.Props.C08"
-THEOREMS = ["Hg.C08.mul_nonpos", "Hg.C08.mul_eq_refill", "Hg.C08.scale_one", "Hg.C08.scale_scale", "Hg.C08.scale_two_eq_add_self", "Hg.C08.scale_add", "Hg.C08.good_scale", "Hg.C08.scale_fill"]
+THEOREMS = ["Hg.C08.mul_nonpos", "Hg.C08.mul_eq_refill", "Hg.C08.scale_one", "Hg.C08.scale_scale", "Hg.C08.scale_two_eq_add_self", "Hg.C08.scale_add", "Hg.C08.good_scale", "Hg.C08.scale_fill", "Hg.C08.scale_fillAll", "Hg.C08.goodRun_scaled", "Hg.C08.scale_partition"]
 CASES = {"quick": 300, "thorough": 10000}
 RULE = ("random tree (live or reloaded from JSON), reachable states a, b, factor from {1/4,1/2,1,2,3,0,-1,nan, ints}; "
-        "h*f vs refill with scaled weights, f*h, (h*f)*g vs h*(f*g), h*1, h*2 vs h+h, distribution over +, JSON commutation, "
+        "h*f vs refill with scaled weights, f*h, (h*f)*g vs h*(f*g), h*1, h*2 vs h+h, distribution over +, scaled partials vs scaled whole (both orders), JSON commutation, "
         "and continuations that fill / merge / hash / serialise the product; distinct = hash of parameters")
 SHRINK_LISTS = ["sa", "sb", "cont"]
 
@@ -55,6 +55,13 @@ def build(p):
         ops.append(("mul", "bf", "b", f))
         ops.append(("add", "af_bf", "m", "bf"))
         ops.append(("checkeq", "abf", "af_bf", "scaling does not distribute over +"))
+        # scaled partial results combine (either order) to the scaled whole-dataset aggregate (scale_partition)
+        ops.append(("new", "w", spec))
+        ops.append(("fills", "w", S("sa") + S("sb")))
+        ops.append(("mul", "wf", "w", f))
+        ops.append(("add", "bf_af", "bf", "m"))
+        ops.append(("checkeq", "wf", "af_bf", "scaled partial results do not add up to the scaled whole"))
+        ops.append(("checkeq", "wf", "bf_af", "scaled partial results combined in the other order differ from the scaled whole"))
     ops.append(("mul", "one", src, 1))
     ops.append(("checkeq", "one", src, "h * 1 differs from h"))
     ops.append(("mul", "two", src, 2))
